@@ -114,6 +114,18 @@ def run_case(scn, drv):
             break
     if not (np.array_equal(op_fix.c, op_free.c) and op_fix.cType == op_free.cType and np.array_equal(op_fix.b, op_free.b)):
         viol('costs or restrictions differ between the fixed and the free problem', what='rest_changed')
+    # "belongs to a step": internal variables must be labelled with steps at which their asset is active, else the window pins
+    # variables of other steps (and leaves those of the window free)
+    for a in portf.assets:
+        if type(a).__name__ in ('StructuredAsset', 'LinkedAsset'):
+            continue
+        rows = m[m['asset'] == a.name]
+        ds = set(int(t) for t in rows[rows['type'] == 'd']['time_step'].values)
+        iis = set(int(t) for t in rows[rows['type'] == 'i']['time_step'].values)
+        if ds and not iis <= ds:
+            viol('internal variables of asset %r are labelled with steps %s at which it has no dispatch variable (active steps %d..%d): fixing a window pins internal variables of other steps' % (
+                a.name, sorted(iis - ds)[:4], min(ds), max(ds)), what='internal_steps', asset_type=type(a).__name__)
+            break
     # (2) re-optimise with the new prices: fixed entries keep their values
     res2 = impl.solve(op_fix)
     r['evaluated'] += 1
